@@ -175,6 +175,13 @@ func cmdCheck(args []string) int {
 	if *tier == "thorough" {
 		budget = ck.ThoroughBudget
 	}
+	// experiments only (smoke-testing a tier's deeper bounds): cap the wall-clock budget; the registered commands never set it
+	if v := os.Getenv("VERIF_BUDGET_S"); v != "" {
+		var secs int
+		if _, err := fmt.Sscan(v, &secs); err == nil && secs > 0 && time.Duration(secs)*time.Second < budget {
+			budget = time.Duration(secs) * time.Second
+		}
+	}
 	start := time.Now()
 	work := filepath.Join(outRoot(), ".work", fmt.Sprintf("%s-%d", id, os.Getpid()))
 	os.MkdirAll(work, 0o755)
